@@ -1,6 +1,7 @@
 package main
 
 import (
+	"fmt"
 	"go/ast"
 	"go/token"
 	"go/types"
@@ -373,6 +374,126 @@ func init() {
 					}
 					return true
 				})
+			}
+			return obs
+		}})
+}
+
+func init() {
+	register(&Rule{ID: "TRACE.stack-before-pop", Floor: 1,
+		Doc: "in funCall an error returned by the callee gets the runtime's call stack attached (SetCallStack, unless it already has one) before funCall returns — that is, before the deferred Pop removes the callee's frame: an error built without an environment (lisp.Errorf in the map/array helpers) then lists the function that raised it as its innermost frame",
+		Run: func(c *Ctx) []Obligation {
+			fn, fd, pkg := c.LookupFunc("lisp.(*LEnv).funCall")
+			call := c.LookupMethod("lisp.LEnv.call")
+			setCS := c.LookupMethod("lisp.LVal.SetCallStack")
+			getCS := c.LookupMethod("lisp.LVal.CallStack")
+			typeFld := c.LookupField("lisp.LVal.Type")
+			lerror := c.LookupConst("lisp.LError")
+			if fn == nil || call == nil || setCS == nil || getCS == nil || typeFld == nil || lerror == nil {
+				return []Obligation{anchorMissing("TRACE.stack-before-pop", "funCall / LEnv.call / SetCallStack / CallStack / LError")}
+			}
+			u := FuncUnit{fn, fd, pkg}
+			info := pkg.TypesInfo
+			fc := c.cfgOf(u, nil)
+			// r := env.call(...)
+			var rObj types.Object
+			ast.Inspect(fd.Body, func(n ast.Node) bool {
+				if as, ok := n.(*ast.AssignStmt); ok && len(as.Lhs) == 1 && len(as.Rhs) == 1 {
+					if ce, ok := ast.Unparen(as.Rhs[0]).(*ast.CallExpr); ok && originOf(Callee(info, ce)) == call {
+						rObj = identObj(info, as.Lhs[0])
+					}
+				}
+				return true
+			})
+			if rObj == nil {
+				return []Obligation{mkOb(c, "TRACE.stack-before-pop", u, "callee result", fd, Undecided, "funCall no longer binds the result of env.call to a local", false)}
+			}
+			edges := errorEdges(fc, typeFld, lerror)
+			var obs []Obligation
+			n := 0
+			for _, e := range edges {
+				if e.Obj != rObj {
+					continue
+				}
+				n++
+				start := e.E.B.Succs[e.E.K]
+				// blocked: blocks that call r.SetCallStack; cut: edges entailing r.CallStack() != nil
+				blocked := map[*cfg.Block]bool{}
+				for _, b := range fc.G.Blocks {
+					for _, nd := range b.Nodes {
+						for _, ce := range callsIn(nd, false) {
+							if originOf(Callee(info, ce)) == setCS {
+								if se, ok := ast.Unparen(ce.Fun).(*ast.SelectorExpr); ok && identObj(info, se.X) == rObj {
+									blocked[b] = true
+								}
+							}
+						}
+					}
+				}
+				cls := func(x ast.Expr) (string, bool) {
+					be, ok := ast.Unparen(x).(*ast.BinaryExpr)
+					if !ok || (be.Op != token.EQL && be.Op != token.NEQ) {
+						return "", false
+					}
+					ce, ok := ast.Unparen(be.X).(*ast.CallExpr)
+					if !ok || originOf(Callee(info, ce)) != getCS {
+						return "", false
+					}
+					if se, ok := ast.Unparen(ce.Fun).(*ast.SelectorExpr); !ok || identObj(info, se.X) != rObj {
+						return "", false
+					}
+					if tv, ok := info.Types[be.Y]; !ok || !tv.IsNil() {
+						return "", false
+					}
+					return "hasStack", be.Op == token.EQL
+				}
+				cut := fc.edgesEntailing(cls, func(v map[string]bool) bool { return v["$has:hasStack"] && v["hasStack"] })
+				isCut := func(b *cfg.Block, k int) bool {
+					for _, ce := range cut {
+						if ce.B == b && ce.K == k {
+							return true
+						}
+					}
+					return false
+				}
+				// can a return be reached from start without passing a blocked block or a cut edge?
+				bad := false
+				seen := map[*cfg.Block]bool{}
+				var dfs func(b *cfg.Block)
+				dfs = func(b *cfg.Block) {
+					if bad || seen[b] {
+						return
+					}
+					seen[b] = true
+					if blocked[b] {
+						return
+					}
+					for _, nd := range b.Nodes {
+						if _, ok := nd.(*ast.ReturnStmt); ok {
+							bad = true
+							return
+						}
+					}
+					if len(b.Succs) == 0 {
+						bad = true
+						return
+					}
+					for k, s := range b.Succs {
+						if !isCut(b, k) {
+							dfs(s)
+						}
+					}
+				}
+				dfs(start)
+				construct := fmt.Sprintf("error edge of the callee result#%d", n)
+				if !bad {
+					obs = append(obs, mkOb(c, "TRACE.stack-before-pop", u, construct, e.E.B.Nodes[len(e.E.B.Nodes)-1], Proved, "every return on the error edge passes r.SetCallStack(...) or the `r.CallStack() != nil` edge", true))
+				} else {
+					obs = append(obs, mkOb(c, "TRACE.stack-before-pop", u, construct, e.E.B.Nodes[len(e.E.B.Nodes)-1], Violated, "an error returned by the callee leaves funCall without a call stack: eval attaches one only after the deferred Pop, so the function that raised the error is missing from its own trace ((defun look (m k) (get m k)) (look (sorted-map) (list 1 2)) reports no lisp:get frame)", true))
+				}
+			}
+			if n == 0 {
+				obs = append(obs, mkOb(c, "TRACE.stack-before-pop", u, "error edge of the callee result", fd, Undecided, "no `r.Type == LError` test on the result of env.call found", false))
 			}
 			return obs
 		}})
